@@ -1355,6 +1355,44 @@ pub mod verif_exec {
         create_execution_result(status, &errors, leaked)
     }
 
+    /// `ExecutionStatuses::describe` over the results of consecutive attempts (non-empty): `"success"`,
+    /// `"flaky"` or `"failure"`.
+    pub fn describe(results: Vec<ExecutionResult>) -> &'static str {
+        use crate::{
+            reporter::events::{ExecuteStatus, ExecutionDescription, ExecutionStatuses},
+            test_output::{ChildExecutionOutput, ChildOutput, ChildSplitOutput},
+        };
+        let total_attempts = results.len();
+        let statuses = results
+            .into_iter()
+            .enumerate()
+            .map(|(i, result)| ExecuteStatus {
+                retry_data: RetryData {
+                    attempt: i + 1,
+                    total_attempts,
+                },
+                output: ChildExecutionOutput::Output {
+                    result: Some(result),
+                    output: ChildOutput::Split(ChildSplitOutput {
+                        stdout: None,
+                        stderr: None,
+                    }),
+                    errors: None,
+                },
+                result,
+                start_time: chrono::Local::now().fixed_offset(),
+                time_taken: Duration::ZERO,
+                is_slow: false,
+                delay_before_start: Duration::ZERO,
+            })
+            .collect();
+        match ExecutionStatuses::new(statuses).describe() {
+            ExecutionDescription::Success { .. } => "success",
+            ExecutionDescription::Flaky { .. } => "flaky",
+            ExecutionDescription::Failure { .. } => "failure",
+        }
+    }
+
     /// Every delay `BackoffIter` yields for a policy, in order.
     pub fn backoff_delays(policy: RetryPolicy) -> Vec<Duration> {
         BackoffIter::new(policy).collect()
